@@ -22,7 +22,7 @@ import (
 
 func init() {
 	props["C10"] = &propDef{
-		rule: "cases = (progressive file, crop duration) pairs run through the built cmd/mp4ff-crop binary: files from harness/progfile.go (1..4 tracks, random chunking/interleaving/gaps, stco|co64, ctts/stss/sdtp present or absent, mdat before or after moov, 8/16-byte mdat header), from the extended generator c10_gen.go (adds edts/elst, uniform stsz, ctts v1, 14 time scales, movie time scales 600/1000/90000, audio-only and audio-first files, round-robin/sequential layouts, sync samples a fraction of a millisecond before a whole millisecond, samples of other tracks within one tick of the converted end time) from the long-track generator c10_long.go (tracks of 1..2.6 x 2^32 ticks: 10 MHz / microsecond time scales at 1..50 fps, 90 kHz tracks with one picture per 2 or 10 s, up to 30000 tiny samples, one or a few stts runs, with ordinary companion tracks) and the repository's progressive test files; durations = 1,2,3 ms, for every sync sample of the reference track its start in ms -1/+0/+1/+2, every track end -1/+0/+1, every multiple of 2^32 ticks of a track and the first sync sample after it -1/+0/+1, random points, beyond the end, and EVERY millisecond for files shorter than 400 ms (quick) / 1500 ms (thorough); oracle = independent raw-byte expansion of input and output sample tables; non-trivial = distinct (file, duration) on which the tool succeeded and at least one track was really cut",
+		rule: "cases = (progressive file, crop duration) pairs run through the built cmd/mp4ff-crop binary: files from harness/progfile.go (1..4 tracks, random chunking/interleaving/gaps, stco|co64, ctts/stss/sdtp present or absent, mdat before or after moov, 8/16-byte mdat header), from the extended generator c10_gen.go (adds edts/elst, uniform stsz, ctts v1, 14 time scales, movie time scales 600/1000/90000, audio-only and audio-first files, round-robin/sequential layouts, sync samples a fraction of a millisecond before a whole millisecond, samples of other tracks within one tick of the converted end time) from the long-track generator c10_long.go (tracks of 1..2.6 x 2^32 ticks: 10 MHz / microsecond time scales at 1..50 fps, 90 kHz tracks with one picture per 2 or 10 s, up to 30000 tiny samples, one or a few stts runs, with ordinary companion tracks), from the layout family c10_layout.go (the extended generator's tracks stored with an arbitrary placement of the chunks inside mdat: random permutation, tracks back to front, per-track descending offsets, everything backwards, exchanged places, late chunks first, with/without unreferenced bytes around the chunks; additional top-level free/skip/uuid boxes and empty mdat boxes with 8- or 16-byte headers before/between/after moov and the media, moov before or after the media) and the repository's progressive test files; durations = 1,2,3 ms, for every sync sample of the reference track its start in ms -1/+0/+1/+2, every track end -1/+0/+1, every multiple of 2^32 ticks of a track and the first sync sample after it -1/+0/+1, random points, beyond the end, and EVERY millisecond for files shorter than 400 ms (quick) / 1500 ms (thorough); oracle = independent raw-byte expansion of input and output sample tables; non-trivial = distinct (file, duration) on which the tool succeeded and at least one track was really cut",
 		gen:  genC10,
 		exec: execC10,
 	}
@@ -173,7 +173,7 @@ func parallelDo(n int, f func(i int)) {
 // ---------- inputs
 
 // progInputBytes resolves an input description ("prog seed ntracks max" | "ext seed ntracks max flavor" |
-// "long seed ntracks" | "repo path") to file bytes.
+// "long seed ntracks" | "lay seed ntracks max" | "repo path") to file bytes.
 func progInputBytes(f []string) ([]byte, *progFile, error) {
 	switch f[0] {
 	case "prog":
@@ -197,6 +197,13 @@ func progInputBytes(f []string) ([]byte, *progFile, error) {
 		seed, _ := strconv.ParseInt(f[1], 10, 64)
 		pe := genProgLong(rand.New(rand.NewSource(seed)), atoi(f[2]))
 		return pe.bytes, pe.progFile, nil
+	case "lay":
+		if len(f) < 4 {
+			return nil, nil, fmt.Errorf("bad input spec")
+		}
+		seed, _ := strconv.ParseInt(f[1], 10, 64)
+		pe := genProgLayout(rand.New(rand.NewSource(seed)), atoi(f[2]), atoi(f[3]))
+		return pe.bytes, pe.progFile, nil
 	case "repo":
 		d, err := os.ReadFile(repoPath(f[1]))
 		return d, nil, err
@@ -206,7 +213,7 @@ func progInputBytes(f []string) ([]byte, *progFile, error) {
 
 func inputSpecLen(kind string) int {
 	switch kind {
-	case "prog":
+	case "prog", "lay":
 		return 4
 	case "ext":
 		return 5
@@ -279,6 +286,9 @@ func execC10(req string) string {
 	f := strings.Fields(req)
 	if len(f) >= 2 && f[0] == "crop" && strings.HasPrefix(f[1], "H=") {
 		return execCropModel(strings.ReplaceAll(f[1][2:], "/", " "))
+	}
+	if len(f) >= 2 && f[0] == "cropmdat" && strings.HasPrefix(f[1], "H=") {
+		return execCropMdat(strings.ReplaceAll(f[1][2:], "/", " "))
 	}
 	if len(f) < 4 || f[0] != "crop" {
 		return "bad-op"
@@ -516,7 +526,7 @@ func genC10(c *Ctx) {
 			c.Count("input-not-decodable")
 			return true
 		}
-		c10CurIn = inFile
+		c10CurIn, c10CurInBytes, c10CurKind = inFile, data, spec[0]
 		if spec[0] == "long" {
 			// the executable model walks the tables sample by sample (quadratic in the number of kept samples): model
 			// correspondence lines only for long files with few samples (slow tracks); the direct oracle covers all
@@ -531,14 +541,19 @@ func genC10(c *Ctx) {
 		}
 		c.Count("file:" + spec[0])
 		describeInput(c, in)
-		q := quota
+		describeLayout(c, in)
+		q, eb := quota, exhaustBelow
 		if spec[0] == "repo" {
 			q = c.N(40, 120)
 		}
 		if spec[0] == "long" {
 			q = c.N(40, 80)
 		}
-		durs := cropDurations(r, in, q, exhaustBelow)
+		if spec[0] == "lay" {
+			// the layout family varies where things are stored, not where the cut falls: fewer durations per file
+			q, eb = c.N(30, 60), 0
+		}
+		durs := cropDurations(r, in, q, eb)
 		dir, done := scratchDir("f")
 		inPath := filepath.Join(dir, "in.mp4")
 		must(os.WriteFile(inPath, data, 0o644))
@@ -578,6 +593,15 @@ func genC10(c *Ctx) {
 	for i := 0; i < c.N(12, 60); i++ {
 		sub := strconv.FormatInt(r.Int63(), 10)
 		if !runSpec([]string{"long", sub, strconv.Itoa(1 + r.Intn(3))}) {
+			return
+		}
+	}
+	// layout family (arbitrary chunk placement inside mdat, additional top-level boxes), see c10_layout.go; again
+	// generated after everything else so that the older inputs keep their random stream
+	for i := 0; i < c.N(200, 700); i++ {
+		sub := strconv.FormatInt(r.Int63(), 10)
+		maxS := []int{4, 12, 40, 90}[r.Intn(4)]
+		if !runSpec([]string{"lay", sub, strconv.Itoa(1 + r.Intn(4)), strconv.Itoa(maxS)}) {
 			return
 		}
 	}
@@ -669,6 +693,7 @@ func checkCrop(c *Ctx, req string, in *rawProg, ms uint64, tr toolResult, out []
 		fail("track-count", "number of tracks changed", fmt.Sprint(len(o.tracks)), fmt.Sprint(len(in.tracks)))
 		return
 	}
+	cropMdatCase(c, req, ms, in, o, out)
 	ri := in.refTrack()
 	cut := false
 	for ti := range in.tracks {
@@ -682,6 +707,7 @@ func checkCrop(c *Ctx, req string, in *rawProg, ms uint64, tr toolResult, out []
 		c.Eval("")
 	}
 	c.Count("outcome: success")
+	c.Count(keptOrderShape(in, o))
 	// table well-formedness of the output (needed to speak about "the track's samples" at all)
 	for ti, t := range o.tracks {
 		for _, p := range t.problems {
